@@ -90,16 +90,16 @@ func (e *env) runCell(m *rpc, v *variant, p *principal, ch chooser) (o outcome) 
 	o = outcome{Method: m.key(), Variant: v.name, Principal: p.name}
 	isDocWrite := m.svc == "DocumentService" && v.need == lvRW
 	if isDocWrite && p.sel == sysDB && p.eff(sysDB) >= lvAdmin {
-		vk.CountExcluded(kSysDoc)
 		if excluded(kSysDoc) {
+			vk.CountExcluded(kSysDoc)
 			o.skipped = kSysDoc
 			return o
 		}
 	}
 	isTxWrite := m.svc == "ImmuService" && (m.name == "TxSQLExec" || m.name == "Commit") && v.need == lvRW
 	if isTxWrite && p.sel == sysDB && p.eff(sysDB) >= lvAdmin {
-		vk.CountExcluded(kSysTx)
 		if excluded(kSysTx) {
+			vk.CountExcluded(kSysTx)
 			o.skipped = kSysTx
 			return o
 		}
